@@ -223,9 +223,8 @@ fn body(space: Space, build_kinds: &'static [GraphKind], opts: Vec<Opts>) -> imp
 
 /// Graphs that carry fast-check modules: a generated registry package (and its
 /// dependency package) after `build_fast_check_type_graph`.
-fn body_fast_check(slots: usize) -> impl Fn(&Ch) -> Run + Sync + Send {
-  move |ch: &Ch| {
-    let mut run = Run::default();
+/// A generated package graph after fast check, with the root sets to walk from.
+pub fn fast_check_graph(ch: &Ch, slots: usize) -> Option<(crate::fc::FcResult, crate::fcgen::GenPkg, Vec<Vec<ModuleSpecifier>>)> {
     let mut g = crate::fcgen::gen_package(ch, slots);
     // an import that only function bodies use: fast check drops it, so the
     // failure behind it belongs to the plain walk only
@@ -238,19 +237,27 @@ fn body_fast_check(slots: usize) -> impl Fn(&Ch) -> Run + Sync + Send {
     };
     g.pkg.files[0].1 = format!("{extra}{}", g.pkg.files[0].1);
     let dep_is_root = ch.choose("root_imports_dependency_package_too", 2) == 1;
-    let Some(r) = crate::fc::fast_check_rooted(&[g.pkg.clone(), g.dep.clone()], if dep_is_root { 2 } else { 1 }, None, ch) else {
-      run.violate("build-did-not-finish", "deadlock", json!({}));
-      return run;
-    };
-    let graph = &r.graph;
-    let view = SlotView::new(graph);
-    let with_fc = r.modules.values().filter(|(_, s)| matches!(s, crate::fc::FcSlot::Module { .. })).count();
-    let mut root_sets: Vec<Vec<ModuleSpecifier>> = vec![graph.roots.iter().cloned().collect()];
+    let r = crate::fc::fast_check_rooted(&[g.pkg.clone(), g.dep.clone()], if dep_is_root { 2 } else { 1 }, None, ch)?;
+    let mut root_sets: Vec<Vec<ModuleSpecifier>> = vec![r.graph.roots.iter().cloned().collect()];
     for (_, e) in &g.pkg.exports {
       root_sets.push(vec![url(&g.pkg.url(e.trim_start_matches('.')))]);
     }
     root_sets.push(vec![url(&g.dep.url("/mod.ts"))]);
     root_sets.push(vec![url(&g.pkg.url("/barrel.ts")), url(&g.pkg.url("/c.ts"))]);
+    Some((r, g, root_sets))
+}
+
+fn body_fast_check(slots: usize) -> impl Fn(&Ch) -> Run + Sync + Send {
+  move |ch: &Ch| {
+    let mut run = Run::default();
+    let Some((r, g, root_sets)) = fast_check_graph(ch, slots) else {
+      run.violate("build-did-not-finish", "deadlock", json!({}));
+      return run;
+    };
+    let dep_is_root = r.graph.roots.len() > 1 || root_sets[0].len() > 1;
+    let graph = &r.graph;
+    let view = SlotView::new(graph);
+    let with_fc = r.modules.values().filter(|(_, s)| matches!(s, crate::fc::FcSlot::Module { .. })).count();
     for roots in &root_sets {
       for o in all_opts() {
         let case = || {
